@@ -64,6 +64,10 @@
      state, every batch(es); None = an exception on both sides.
    - C05_generated_binary_chunking: hence C05_binary_run holds of the generated and / or / implies / iff / xor /
      addition / subtraction / division / pow / log classes themselves.
+   - C05_generated_merge: intersection() and _append() of online/intersection.py themselves, as re-generated on every build
+     (MergeGen.v, tools/py2coq_merge.py), ARE the model oisect_g of C05_binary_merge: same result for every type of stamps
+     (an exception or a loop that does not end where the model has None), and with trichotomous comparisons (integer stamps,
+     stamps with +inf) the fuel allotted to the three while loops suffices and an exception is exactly the model's None.
    Outside the proved fragment (modelled and compared only): a constant
    sub-formula that is not a literal under a bounded operator, since[a,b] with
    two constant operands, signals that start after 0 (the open known finding). *)
@@ -72,6 +76,7 @@ From RV Require Import Val Syntax Rho Dense DenseSem DenseLaws ExtZ DenseMerge D
   DenseSinceCorrect DenseOnlineFold DenseOnlineFoldCorrect DenseOnlineWin DenseOnlineWinCorrect.
 From RV Require DenseOnlineMon DenseOnlineMonCorrect DenseOnlineMonMore DenseIA.
 From RV Require Import PyDense DenseOnlineGen DenseOnlineGenCorrect.
+From RV Require Import PyMerge MergeGen MergeGenCorrect.
 Import ListNotations.
 Local Open Scope Z_scope.
 
@@ -436,3 +441,29 @@ Example C05_generated_nonvacuous :
                         [([(0, Fin 6)], [(0, Fin 2)]); ([(0, Fin 9); (2, Fin 8)], [(3, Fin 4)]); ([(5, Fin 4)], [(6, Fin 1)])])
   = Some [[(0, Fin 3)]; [(2, Fin 4)]; [(3, Fin 2); (5, Fin 1)]].
 Proof. vm_compute. reflexivity. Qed.
+
+(* ---------------- intersection() as GENERATED from the Python text (MergeGen.v) ---------------- *)
+Theorem C05_generated_merge :
+  forall (VS : Val) (T : Type) (tltb teqb : T -> T -> bool) (f : V -> V -> V),
+  (forall out item, gen_on_append T V veq out item = Ok (oappend T out item)) /\
+  (* for every type of stamps: the same result, Raise or NoFuel where the model has None *)
+  (forall s1 s2, res_opt (gen_on_intersection T tltb teqb V veq f s1 s2) = oisect_g T tltb teqb f s1 s2) /\
+  (* the fuel suffices when the comparisons are trichotomous: NoFuel does not occur, Raise = None *)
+  (trichotomous T tltb teqb -> forall s1 s2, gen_on_intersection T tltb teqb V veq f s1 s2 = rlift (oisect_g T tltb teqb f s1 s2)).
+Proof. exact @merge_gen_on_refines. Qed.
+Print Assumptions C05_generated_merge.
+
+(* integer stamps (the model of C05_binary_merge) and stamps with +inf *)
+Theorem C05_generated_merge_instances :
+  forall (VS : Val) (f : V -> V -> V),
+  (forall s1 s2 : dsig, gen_on_intersection Z Z.ltb Z.eqb V veq f s1 s2 = rlift (oisect f s1 s2)) /\
+  (forall s1 s2 : esig, gen_on_intersection tz tlt teq V veq f s1 s2 = rlift (oisect_e f s1 s2)).
+Proof. exact @merge_gen_on_instances. Qed.
+Print Assumptions C05_generated_merge_instances.
+
+(* without trichotomy NoFuel does occur: the first tail loop has no final else; CPython never returns from
+   intersection([[0, 1], [nan, 2]], [[1, 5]], conjunction) *)
+Example C05_generated_merge_nofuel_witness :
+  forall (VS : Val) (f : V -> V -> V),
+  gen_on_intersection Z (fun _ _ => false) (fun _ _ => false) V veq f [(0, bot); (1, bot)] [(0, bot)] = NoFuel.
+Proof. exact @gen_on_intersection_nofuel_witness. Qed.
